@@ -2,6 +2,7 @@ package drivers
 
 import (
 	"bytes"
+	"crypto"
 	"crypto/x509/pkix"
 	"encoding/asn1"
 	"encoding/json"
@@ -121,6 +122,60 @@ func c17Reader(chk *fw.Check, n int, pemEnc bool, dir string) (samples int, peak
 		chk.Violation("C17|reader-live-heap-grows|"+enc, fmt.Sprintf("live heap while streaming a %s CRL with %d entries grew by %d bytes over its value at the first entry (bound 1 MiB)", enc, n, worst), map[string]interface{}{"n": n, "pem": pemEnc})
 	}
 	return samples, worst
+}
+
+// c17ReaderAlgs: the bound does not depend on what the signatureAlgorithm field says. One list of n entries per
+// algorithm identifier of the PKI world (the implemented ones, RSASSA-PSS, Ed25519, an unknown OID and the legacy /
+// foreign identifiers), streamed through the reader with the discarding processor. Whether the list is accepted is not
+// judged here; the live heap while its entries go by is.
+func c17ReaderAlgs(chk *fw.Check, n int, dir string) (evals int) {
+	p := world.Std()
+	algs := append(append([]world.SigAlg{}, world.SupportedAlgs...), world.RSAPSS, world.ED25519, world.BogusAlg)
+	for _, oid := range world.OtherAlgOIDs {
+		algs = append(algs, world.SigAlg{Name: "oid-" + oid.String(), OID: oid, Hash: crypto.SHA256, KeyKind: "ec", NoNullParams: true})
+	}
+	base := new(big.Int).Lsh(big.NewInt(1), 70)
+	t := vsched.Epoch.Add(-time.Hour)
+	for _, a := range algs {
+		ca := p.CA
+		if a.KeyKind == "rsa" {
+			ca = p.CARSA
+		}
+		spec := world.SimpleCRL(ca, 1)
+		spec.Alg = a
+		if a.KeyKind == "" {
+			spec.Signer = nil
+		}
+		for i := 0; i < n; i++ {
+			spec.Entries = append(spec.Entries, world.RevEntry{Serial: new(big.Int).Add(base, big.NewInt(int64(i))), Date: t})
+		}
+		path := filepath.Join(dir, "alg.crl")
+		os.WriteFile(path, spec.DER(), 0600)
+		spec = nil
+		var first uint64
+		worst := int64(0)
+		proc := &discardProc{}
+		proc.onEntry = func(k int) {
+			if k == 1 {
+				first = liveHeap()
+				return
+			}
+			if k%4096 == 0 || k == n {
+				if d := int64(liveHeap()) - int64(first); d > worst {
+					worst = d
+				}
+			}
+		}
+		before := liveHeap()
+		crlreader.StreamingCRLFileReader{}.ReadCRL(proc, path)
+		after := int64(liveHeap()) - int64(before)
+		os.Remove(path)
+		evals++
+		if worst > mib || (proc.n == 0 && after > mib) {
+			chk.Violation("C17|reader-live-heap-grows|signatureAlgorithm="+a.Name, fmt.Sprintf("live heap while streaming a CRL with %d entries whose signatureAlgorithm is %s (%v) grew by %d bytes over its value at the first entry (bound 1 MiB; %d entries seen)", n, a.Name, a.OID, worst, proc.n), nil)
+		}
+	}
+	return
 }
 
 // c17ReaderFailingStore: the consumer refuses every entry from the 1000th on. However the reader deals with that
@@ -524,27 +579,41 @@ func c17Footprint(chk *fw.Check, name string, doc []byte, n int, dir string) int
 
 func c17DefaultStorage(chk *fw.Check) (kind string) {
 	p := world.Std()
-	seqWorld(func() {
-		net := world.NewNet()
-		net.Serve(urlA, "doc", world.SimpleCRL(p.CA, 1, 901, 902, 903).DER())
-		dir := FreshDir("c17d")
-		defer os.RemoveAll(dir)
-		files := FreshDir("c17df")
-		defer os.RemoveAll(files)
-		w := NewTW(TWOpt{Mode: "crl_only", Net: net, CRL: &config.CRLConfig{WorkDir: dir, CRLUrls: []string{urlA}, TrustedSignatureCertsFiles: []string{WritePEM(files, "ca.pem", p.CA.Cert)}}})
-		if err := w.Provision(); err != nil {
-			chk.Violation("C17|harness|default-storage", "Provision: "+err.Error(), nil)
-			return
-		}
-		vsched.Drain()
-		kind = fmt.Sprintf("%T", w.V.VerifCRLChecker().VerifRepository().Factory)
-		ids, _, _ := ListDir(dir)
-		if !strings.Contains(kind, "LevelDb") || len(ids) == 0 {
-			chk.Violation("C17|default-storage-is-not-disk", fmt.Sprintf("a crl_config without storage_type keeps its CRLs in %s (store directories in the work_dir: %v); the documented default, the one the memory bound is promised for, is disk", kind, ids), nil)
-		}
-		w.Cleanup()
-		vsched.Drain()
-	})
+	// (a) no storage_type at all; (b) storage_type disk in a work_dir which holds what a crashed run leaves behind -
+	// files and directories matching the temporary pattern crl_*_tmp (a download, a staging database, an empty file)
+	for _, variant := range []string{"storage_type omitted", "storage_type disk, leftovers of a crashed run in the work_dir"} {
+		variant := variant
+		seqWorld(func() {
+			net := world.NewNet()
+			net.Serve(urlA, "doc", world.SimpleCRL(p.CA, 1, 901, 902, 903).DER())
+			dir := FreshDir("c17d")
+			defer os.RemoveAll(dir)
+			files := FreshDir("c17df")
+			defer os.RemoveAll(files)
+			cfg := &config.CRLConfig{WorkDir: dir, CRLUrls: []string{urlA}, TrustedSignatureCertsFiles: []string{WritePEM(files, "ca.pem", p.CA.Cert)}}
+			if strings.HasPrefix(variant, "storage_type disk") {
+				cfg.StorageType = "disk"
+				for _, f := range []string{"crl_1234567_tmp", "crl_write_probe_tmp", "crl_probe_tmp", "crl_test_tmp", "crl__tmp"} {
+					os.WriteFile(filepath.Join(dir, f), nil, 0600)
+				}
+				os.MkdirAll(filepath.Join(dir, "crl_0b7e7c7e-aaaa-11ef-8000-000000000000_tmp"), 0700)
+				os.WriteFile(filepath.Join(dir, "crl_0b7e7c7e-aaaa-11ef-8000-000000000000_tmp", "LOCK"), nil, 0600)
+			}
+			w := NewTW(TWOpt{Mode: "crl_only", Net: net, CRL: cfg})
+			if err := w.Provision(); err != nil {
+				chk.Violation("C17|harness|default-storage", variant+": Provision: "+err.Error(), nil)
+				return
+			}
+			vsched.Drain()
+			kind = fmt.Sprintf("%T", w.V.VerifCRLChecker().VerifRepository().Factory)
+			ids, _, _ := ListDir(dir)
+			if !strings.Contains(kind, "LevelDb") || len(ids) == 0 {
+				chk.Violation("C17|storage-is-not-disk", fmt.Sprintf("%s: the validator keeps its CRLs in %s (store directories in the work_dir: %v); disk storage - the documented default, the one the memory bound is promised for - was to be used", variant, kind, ids), nil)
+			}
+			w.Cleanup()
+			vsched.Drain()
+		})
+	}
 	return
 }
 
@@ -592,6 +661,9 @@ func RunC17(tier string, args []string) int {
 		}
 	}
 	c17ReaderFailingStore(chk, 1<<maxK, dir)
+	algEvals := c17ReaderAlgs(chk, 1<<maxK, dir)
+	evals += algEvals
+	distinct += algEvals
 	evals++
 	distinct++
 	sizes := []int64{1 << 20, 16 << 20, 64 << 20}
